@@ -26,6 +26,8 @@ import (
 	abci "github.com/cometbft/cometbft/abci/types"
 	storetypes "github.com/cosmos/cosmos-sdk/store/types"
 	sdk "github.com/cosmos/cosmos-sdk/types"
+	"github.com/cosmos/cosmos-sdk/x/params"
+	paramproposal "github.com/cosmos/cosmos-sdk/x/params/types/proposal"
 
 	chain "github.com/comdex-official/comdex/app"
 	"github.com/comdex-official/comdex/x/asset"
@@ -36,11 +38,13 @@ import (
 	"github.com/comdex-official/comdex/x/lend"
 	"github.com/comdex-official/comdex/x/liquidation"
 	"github.com/comdex-official/comdex/x/liquidationsV2"
+	lendtypes "github.com/comdex-official/comdex/x/lend/types"
 	liqV1types "github.com/comdex-official/comdex/x/liquidation/types"
 	liqV2types "github.com/comdex-official/comdex/x/liquidationsV2/types"
 	"github.com/comdex-official/comdex/x/liquidity"
 	"github.com/comdex-official/comdex/x/market"
 	"github.com/comdex-official/comdex/x/rewards"
+	vaulttypes "github.com/comdex-official/comdex/x/vault/types"
 )
 
 // ---------- the probe ----------
@@ -353,6 +357,34 @@ func c15ApplyFault(t *testing.T, a *chain.App, ctx sdk.Context, e *c15Env, fault
 		if n > 0 {
 			a.VaultKeeper.SetLengthOfVault(ctx, n-1)
 		}
+	case "batch-huge", "batch-over-int":
+		// REACHABLE parameter fault.  New healthy vaults and a new borrow are created through the real
+		// message handlers until the swept lists are longer than the stored offsets (every chain whose
+		// list was swept completely has offset = length; the next creation makes offset < length),
+		// then the liquidation batch size is set through the real parameter setter (what a
+		// governance parameter change executes; validateLiquidationBatchSize accepts every v > 0):
+		//   batch-huge      2^63-1: int(offset + batch) overflows for every stored offset >= 1
+		//   batch-over-int  2^63 or 2^64-1: int(batch) is negative, the helper's batchSize < 0 branch
+		grown := c15GrowSweptLists(t, a, ctx, e, 1+r.intn(2))
+		b := uint64(1<<63 - 1)
+		if fault == "batch-over-int" {
+			b = []uint64{1 << 63, ^uint64(0)}[r.intn(2)]
+		}
+		// the handler a passed governance parameter-change proposal executes (it runs the module's
+		// validateLiquidationBatchSize); the keeper's own setter is used only if that is refused
+		gov := "gov:ok"
+		for _, sub := range []string{liqV2types.ModuleName, liqV1types.ModuleName} {
+			err := params.NewParamChangeProposalHandler(a.ParamsKeeper)(ctx, &paramproposal.ParameterChangeProposal{Title: "batch", Description: "batch",
+				Changes: []paramproposal.ParamChange{{Subspace: sub, Key: "LiquidationBatchSize", Value: fmt.Sprintf("\"%d\"", b)}}})
+			if err != nil {
+				gov = "gov:refused"
+			}
+		}
+		if gov != "gov:ok" {
+			a.NewliqKeeper.SetParams(ctx, liqV2types.Params{LiquidationBatchSize: b})
+			a.LiquidationKeeper.SetParams(ctx, liqV1types.Params{LiquidationBatchSize: b})
+		}
+		detail = fmt.Sprintf("batch=%d %s grown=%s", b, gov, grown)
 	case "batch-zero-liquidity":
 		p, err := a.LiquidityKeeper.GetGenericParams(ctx, e.appSwap)
 		if err == nil {
@@ -364,7 +396,32 @@ func c15ApplyFault(t *testing.T, a *chain.App, ctx sdk.Context, e *c15Env, fault
 }
 
 var c15Faults = []string{"none", "inactive-prices", "zero-prices", "huge-prices", "drained-modules", "counter-high", "counter-high-1",
-	"counter-low", "batch-zero-liquidity"}
+	"counter-low", "batch-zero-liquidity", "batch-huge", "batch-over-int"}
+
+// c15GrowSweptLists creates, through the message handlers, `extra` more vaults than the largest
+// stored vault-sweep offset and one more borrow, so that 1 <= stored offset < length where a sweep
+// has run before.  The new positions are healthy at the current prices.
+func c15GrowSweptLists(t *testing.T, a *chain.App, ctx sdk.Context, e *c15Env, extra int) string {
+	off := uint64(0)
+	if oh, found := a.NewliqKeeper.GetLiquidationOffsetHolder(ctx, liqV2types.VaultLiquidationsOffsetPrefix, 0); found {
+		off = oh.CurrentOffset
+	}
+	if oh, found := a.LiquidationKeeper.GetLiquidationOffsetHolder(ctx, e.appHarbor, liqV1types.VaultLiquidationsOffsetPrefix); found && oh.CurrentOffset > off {
+		off = oh.CurrentOffset
+	}
+	made, class := 0, ""
+	for i := 0; a.VaultKeeper.GetLengthOfVault(ctx) < off+uint64(extra) && i < 8; i++ {
+		who := addrN(130 + i)
+		fund(t, a, ctx, who, sdk.NewCoins(sdk.NewCoin("uasset2", sdk.NewInt(100000000))))
+		class, _, _ = execMsg(a, ctx, &vaulttypes.MsgCreateRequest{From: who.String(), AppId: e.appHarbor, ExtendedPairVaultId: e.extPair,
+			AmountIn: sdk.NewInt(4000000), AmountOut: sdk.NewInt(1000000)})
+		if class == "ok" {
+			made++
+		}
+	}
+	bclass, _, _ := execMsg(a, ctx, lendtypes.NewMsgBorrow(e.user2.String(), 3, 1, false, sdk.NewCoin("ucasset1", sdk.NewInt(1000000000)), sdk.NewCoin("uasset2", sdk.NewInt(100000000))))
+	return fmt.Sprintf("vaults+%d(%s),borrow:%s", made, class, bclass)
+}
 
 func TestC15(t *testing.T) {
 	a, base := newApp(t)
@@ -398,27 +455,7 @@ func TestC15(t *testing.T) {
 					continue // the two generations liquidate the same vaults: V1 hooks run on the V1 states only
 				}
 				hctx, write := ctx.CacheContext()
-				if h.name == "liquidationsV2.BeginBlocker" || h.name == "liquidation.BeginBlocker" {
-					// what the sweep's slice expression will see (inputs of Model/Sweep.v)
-					vs := a.VaultKeeper.GetVaults(hctx)
-					off, batch, present := uint64(0), uint64(0), 1
-					if h.name == "liquidationsV2.BeginBlocker" {
-						if oh, found := a.NewliqKeeper.GetLiquidationOffsetHolder(hctx, liqV2types.VaultLiquidationsOffsetPrefix, 0); found {
-							off = oh.CurrentOffset
-						}
-						if p, _ := safely(func() { batch = a.NewliqKeeper.GetParams(hctx).LiquidationBatchSize }); p {
-							present = 0
-						}
-					} else {
-						if oh, found := a.LiquidationKeeper.GetLiquidationOffsetHolder(hctx, env.appHarbor, liqV1types.VaultLiquidationsOffsetPrefix); found {
-							off = oh.CurrentOffset
-						}
-						if p, _ := safely(func() { batch = a.LiquidationKeeper.GetParams(hctx).LiquidationBatchSize }); p {
-							present = 0
-						}
-					}
-					tr.p("sweep %s %d %d %d %d %d", h.name, cap(vs), a.VaultKeeper.GetLengthOfVault(hctx), off, batch, present)
-				}
+				c15SweepLines(tr, a, hctx, env, h.name)
 				d0 := storeDigest(a, hctx)
 				panicked, msg, at := c15Safely(func() { h.run(a, hctx) })
 				class := "ok"
@@ -585,6 +622,46 @@ func TestC15(t *testing.T) {
 			tr.p("k %d %s %d %s %d %d w%d", k, unit, wrapped, b2s(returned), diff, others, w)
 		}
 		ci++
+	}
+}
+
+// what the slice expressions of the sweeps will see (inputs of Model/Sweep.v), one line per sweep of
+// the hook in the order the hook runs them: capacity of the sliced list, the length the code passes
+// as sliceLen, the stored offset, the stored batch size (uint64, before the code's int() conversion)
+func c15SweepLines(tr *tracer, a *chain.App, hctx sdk.Context, env *c15Env, hook string) {
+	switch hook {
+	case "liquidationsV2.BeginBlocker":
+		batch := a.NewliqKeeper.GetParams(hctx).LiquidationBatchSize
+		vs := a.VaultKeeper.GetVaults(hctx)
+		off := uint64(0)
+		if oh, found := a.NewliqKeeper.GetLiquidationOffsetHolder(hctx, liqV2types.VaultLiquidationsOffsetPrefix, 0); found {
+			off = oh.CurrentOffset
+		}
+		tr.p("sweep %s vaults %d %d %d %d", hook, cap(vs), a.VaultKeeper.GetLengthOfVault(hctx), off, batch)
+		if bs, found := a.LendKeeper.GetBorrows(hctx); found {
+			off = 0
+			if oh, found := a.NewliqKeeper.GetLiquidationOffsetHolder(hctx, liqV2types.VaultLiquidationsOffsetPrefix, 1); found {
+				off = oh.CurrentOffset
+			}
+			tr.p("sweep %s borrows %d %d %d %d", hook, cap(bs), len(bs), off, batch)
+		}
+	case "liquidation.BeginBlocker":
+		batch := a.LiquidationKeeper.GetParams(hctx).LiquidationBatchSize
+		vs := a.VaultKeeper.GetVaults(hctx)
+		for _, app := range a.LiquidationKeeper.GetAppIdsForLiquidation(hctx) {
+			off := uint64(0)
+			if oh, found := a.LiquidationKeeper.GetLiquidationOffsetHolder(hctx, app, liqV1types.VaultLiquidationsOffsetPrefix); found {
+				off = oh.CurrentOffset
+			}
+			tr.p("sweep %s vaults %d %d %d %d", hook, cap(vs), a.VaultKeeper.GetLengthOfVault(hctx), off, batch)
+		}
+		if bs, found := a.LendKeeper.GetBorrows(hctx); found {
+			off := uint64(0)
+			if oh, found := a.LiquidationKeeper.GetLiquidationOffsetHolder(hctx, lendtypes.AppID, liqV1types.VaultLiquidationsOffsetPrefix); found {
+				off = oh.CurrentOffset
+			}
+			tr.p("sweep %s borrows %d %d %d %d", hook, cap(bs), len(bs), off, batch)
+		}
 	}
 }
 
